@@ -40,10 +40,11 @@ Theorem C08_literals_any_body : forall a b, pieces_ok a = true -> pieces_ok b = 
 Proof. exact literals_any_body. Qed.
 Print Assumptions C08_literals_any_body.
 
-(* raw calls: for every well-formed statement of the grammar (every form, label, CALL, IF...CALL,
-   ASSOCIATE header; expressions of any depth), the chains _add_procedure_calls collects are the CALL
-   target (when SUBCALL_RE applies) followed by the identifiers in front of "(" of every nesting
-   level, in level order.  [plain_ok]: an unlabelled form does not itself contain ") call". *)
+(* raw calls: for every well-formed statement of the grammar (every form, with or without label, CALL
+   and IF...CALL with or without label and argument list, ASSOCIATE header; expressions of any depth),
+   the chains _add_procedure_calls collects are the CALL target (when SUBCALL_RE applies) followed
+   by the identifiers in front of "(" of every nesting level, in level order.  [plain_ok]: a form
+   does not itself contain ") call". *)
 Theorem C08_raw : forall st, seg_stmt st = true -> wf_stmt st = true -> plain_ok st = true ->
   map norm_chain (chain_texts (render_stmt st)) = stmt_chains st.
 Proof. exact raw_stmt. Qed.
@@ -56,28 +57,33 @@ Theorem C08_raw_segs : forall gs, wf_segs gs = true -> gs <> [] -> subcall_match
 Proof. exact raw_segs. Qed.
 Print Assumptions C08_raw_segs.
 
-(* each recorded once: for every list of statement texts whatsoever *)
-Theorem C08_once : forall stmts calls, unit_raw_calls stmts = Some calls ->
-  NoDup (map last_of calls) /\ forall ch, In ch calls -> str_in (last_of ch) INTRINSICS = false.
+(* each recorded once: for every list of statement texts whatsoever, no chain twice before
+   correlate, no procedure twice after *)
+Theorem C08_once : forall stmts,
+  (forall calls, unit_raw_calls stmts = Some calls ->
+     NoDup calls /\ forall ch, In ch calls -> str_in (last_of ch) INTRINSICS = false) /\
+  (forall tb l, recorded tb stmts = Some l -> NoDup l).
 Proof. exact once. Qed.
 Print Assumptions C08_once.
 
-(* a FORMAT statement (written with the blank FORMAT_RE asks for) records nothing, whatever its body *)
-Theorem C08_format_inert : forall lab body st, label_ok lab = true -> existsb (Ascii.eqb nl) (flat body) = false ->
-  line_step st (render_stmt (SFormat lab true body)) = Some st.
+(* a FORMAT statement records nothing, whatever its body, with or without a blank before "(" *)
+Theorem C08_format_inert : forall lab sp body st, label_ok lab = true -> existsb (Ascii.eqb nl) (flat body) = false ->
+  line_step st (render_stmt (SFormat lab sp body)) = Some st.
 Proof. exact format_inert. Qed.
 Print Assumptions C08_format_inert.
 
 (* exactness (partial): for every unit without ASSOCIATE construct whose statements reach the scan
-   (or are FORMAT / GO TO), correct name tables, and outside regions 2, 3, 4, 9 and inner
-   designator parts that are not variables: unit.calls is, as a set, what the unit invokes *)
+   (or are FORMAT), correct name tables, no user procedure spelled like an INTRINSICS entry
+   (region 3) and inner designator parts that are variables: unit.calls is duplicate-free and is,
+   as a set, what the unit invokes — labelled CALLs, computed GO TO selectors, bindings of the
+   same name on different types included *)
 Theorem C08_exact : forall tb ss srcs,
   map mask_quotes srcs = map render_stmt ss -> resolvable tb ss = true ->
-  exists l, recorded tb srcs = Some l /\ forall p, In p l <-> In p (calls_of tb ss).
+  exists l, recorded tb srcs = Some l /\ NoDup l /\ forall p, In p l <-> In p (calls_of tb ss).
 Proof. exact exact. Qed.
 Print Assumptions C08_exact.
 
-(* the full statement is FALSE of the code as it is: refuted inside each region *)
+(* the full statement is still FALSE of the code: refuted inside the two open regions *)
 Definition C08_full_statement : Prop := C08_statement.
 
 Theorem C08_refuted_unresolved_array :
@@ -90,30 +96,18 @@ Theorem C08_refuted_unresolved_array :
 Proof. exact refuted_unresolved_array. Qed.
 Print Assumptions C08_refuted_unresolved_array.
 
-Theorem C08_refuted_same_last : ~ C08_full_statement.
-Proof. exact (refutes_statement _ _ (proj1 refuted_same_last)). Qed.
-Print Assumptions C08_refuted_same_last.
-
 Theorem C08_refuted_intrinsic_named : ~ C08_full_statement.
 Proof. exact (refutes_statement _ _ (proj1 refuted_intrinsic_named)). Qed.
 Print Assumptions C08_refuted_intrinsic_named.
 
-Theorem C08_refuted_labelled_call : ~ C08_full_statement.
-Proof. exact (refutes_statement _ _ (proj1 refuted_labelled_call)). Qed.
-Print Assumptions C08_refuted_labelled_call.
-
-Theorem C08_refuted_format_nospace : ~ C08_full_statement.
-Proof. exact (refutes_statement _ _ (proj1 refuted_format_nospace)). Qed.
-Print Assumptions C08_refuted_format_nospace.
-
-Theorem C08_refuted_assoc_expr : ~ C08_full_statement.
-Proof. exact (refutes_statement _ _ (proj1 refuted_assoc_expr)). Qed.
-Print Assumptions C08_refuted_assoc_expr.
-
-Theorem C08_refuted_assoc_crash : ~ C08_full_statement.
-Proof. exact (refutes_statement _ _ (proj1 refuted_assoc_crash)). Qed.
-Print Assumptions C08_refuted_assoc_crash.
-
-Theorem C08_refuted_goto : ~ C08_full_statement.
-Proof. exact (refutes_statement _ _ (proj1 refuted_goto)). Qed.
-Print Assumptions C08_refuted_goto.
+(* repaired in FORD (same last component, labelled CALL, FORMAT without blank, ASSOCIATE with an
+   expression or a not yet correlated function as selector, computed GO TO): the former witnesses
+   of the refutations, now regression inputs on which model and Spec agree *)
+Theorem C08_fixed_witnesses :
+  agrees w_same_last_tb w_same_last /\ agrees w_labelled_tb w_labelled /\ agrees (tb0 []) w_format /\
+  agrees w_assoc_expr_tb w_assoc_expr /\ agrees w_crash_tb w_crash /\ agrees w_goto_tb w_goto.
+Proof.
+  exact (conj (proj1 fixed_same_last) (conj (proj1 fixed_labelled_call) (conj (proj1 fixed_format_nospace)
+        (conj (proj1 fixed_assoc_expr) (conj (proj1 fixed_assoc_function_selector) (proj1 fixed_goto)))))).
+Qed.
+Print Assumptions C08_fixed_witnesses.
